@@ -672,9 +672,39 @@ def _normalise(facts):
                         use.update({"k": "Field", "field": fl["name"], "ty": fp.get("ty"), "base_ty": pat.get("ty"), "x": base, "normalised": True, "destructured_local": lid})
                         use.update(keep)
 
+    def library_ctors(body):
+        """constructors of the swc AST crate whose meaning is a struct literal are read as that literal:
+        `Ident::new(sym, span, ctxt)`, `Ident::new_no_ctxt(sym, span)` (optional: false),
+        `<Ident as Into<BindingIdent>>::into(id)` / `BindingIdent::from(id)` (type_ann: None)"""
+        def path_node(p, kind, ty):
+            return {"id": fresh(), "sp": "?:0:0-0:0", "ty": ty, "k": "Path", "res": {"res": "Def", "kind": kind, "path": p, "krate": "swc_common", "ctor_path": p if kind.startswith("Ctor") else None}, "qname": p.split("::")[-1], "synthetic": True}
+
+        for n in list(_walk_json(body)):
+            if n.get("k") not in ("Call", "MethodCall") or not n.get("callee"):
+                continue
+            c = n["callee"]
+            path = (c.get("resolved") or c.get("path") or "")
+            ty = n.get("ty") or ""
+            args = ([n["recv"]] if n.get("k") == "MethodCall" else []) + list(n.get("args", []))
+            new = None
+            if ty.endswith("swc_ecma_ast::Ident") and "swc_ecma_ast" in path and path.split("::")[-1] in ("new", "new_no_ctxt") and "Ident" in path and "IdentName" not in path and len(args) in (2, 3):
+                none_ = {"id": fresh(), "sp": n.get("sp"), "ty": "bool", "k": "Lit", "lit": {"t": "bool", "v": False}, "synthetic": True}
+                ctxt = args[2] if len(args) == 3 else {"id": fresh(), "sp": n.get("sp"), "ty": "swc_common::SyntaxContext", "k": "Call", "synthetic": True, "callee": {"path": "swc_common::SyntaxContext::empty", "name": "empty", "krate": "swc_common", "kind": "AssocFn"}, "f": path_node("swc_common::SyntaxContext::empty", "AssocFn", "fn"), "args": []}
+                new = {"k": "Struct", "res": {"res": "Def", "kind": "Struct", "path": "swc_ecma_ast::Ident", "krate": "swc_ecma_ast"}, "qname": "Ident", "fields": [{"name": "span", "shorthand": False, "e": args[1]}, {"name": "sym", "shorthand": False, "e": args[0]}, {"name": "optional", "shorthand": False, "e": none_}, {"name": "ctxt", "shorthand": False, "e": ctxt}]}
+            elif ty.endswith("swc_ecma_ast::BindingIdent") and path.split("::")[-1] in ("into", "from") and len(args) == 1 and (args[0].get("ty") or "").replace("&", "").endswith("swc_ecma_ast::Ident"):
+                none_ = {"id": fresh(), "sp": n.get("sp"), "ty": "std::option::Option<?>", "k": "Path", "synthetic": True, "res": {"res": "Def", "kind": "Ctor(Variant, Const)", "path": "std::option::Option::None", "krate": "core", "ctor_of": "Variant", "ctor_kind": "Const", "ctor_path": "std::option::Option::None"}, "qname": "None"}
+                new = {"k": "Struct", "res": {"res": "Def", "kind": "Struct", "path": "swc_ecma_ast::BindingIdent", "krate": "swc_ecma_ast"}, "qname": "BindingIdent", "fields": [{"name": "id", "shorthand": False, "e": args[0]}, {"name": "type_ann", "shorthand": False, "e": none_}]}
+            if new is not None:
+                keep = {kk: n[kk] for kk in ("id", "sp", "ty", "adj", "aty") if kk in n}
+                n.clear()
+                n.update(new)
+                n.update(keep)
+                n["normalised"] = True
+
     for r in facts["fns"]:
         if "body" in r and not r.get("gen"):
             visit(r["body"])
+            library_ctors(r["body"])
             destructure_alias(r["body"])
             inline_locals(r["body"])
     for c in facts.get("consts") or []:
